@@ -566,6 +566,9 @@ func (o c04HOp) String() string {
 	if o.Kind == "reg" {
 		return fmt.Sprintf("Map(scope%d,%s)", o.Scope, c04Names[o.Type])
 	}
+	if o.Kind == "reg-shared" {
+		return fmt.Sprintf("MapTo(scope%d, the *T1 registered there, I)", o.Scope)
+	}
 	if o.Kind == "parent" {
 		return fmt.Sprintf("SetParent(scope%d,%s)", o.Scope, []string{"scope0", "scope1", "scope2", "nil", "wrapped(scope1)"}[o.Type])
 	}
@@ -579,6 +582,9 @@ func c04HistoryOps() []c04HOp {
 			ops = append(ops, c04HOp{Kind: "reg", Scope: sc, Type: ti})
 		}
 	}
+	// the pointer currently registered under *T1 in the scope is registered under the key I as well (one
+	// instance under two types: re-registering one type later is no business of the other)
+	ops = append(ops, c04HOp{Kind: "reg-shared", Scope: 0, Type: 5}, c04HOp{Kind: "reg-shared", Scope: 1, Type: 5})
 	for _, ti := range []int{5, 1, 2} {
 		ops = append(ops, c04HOp{Kind: "value", Type: ti})
 	}
@@ -614,6 +620,13 @@ func c04RunHistory(ops []c04HOp) (bad string, at int) {
 			v := reg.mkValue(op.Type, fmt.Sprintf("s%d#%d", op.Scope, n), n)
 			c04Register(injs[op.Scope], op.Type, v, "Map")
 			scopes[op.Scope][c04Types[op.Type]] = v
+		case "reg-shared":
+			v, ok := scopes[op.Scope][c04TypPT1]
+			if !ok {
+				v = reg.mkValue(1, fmt.Sprintf("s%d#%d", op.Scope, n), n)
+			}
+			injs[op.Scope].MapTo(v.Interface(), (*c04I)(nil))
+			scopes[op.Scope][c04TypI] = v
 		case "parent":
 			switch op.Type {
 			case 3:
@@ -669,7 +682,7 @@ func c04Histories(r *core.Run) {
 	}
 	r.Parallel(func(w, nw int, l *core.Local) {
 		for c := w; c < total; c += nw {
-			if c%4096 == 0 && r.Expired() {
+			if (c/nw)%256 == 0 && r.Expired() {
 				return
 			}
 			hist := make([]c04HOp, depth)
@@ -678,7 +691,7 @@ func c04Histories(r *core.Run) {
 			for i := depth - 1; i >= 0; i-- {
 				hist[i] = ops[x%len(ops)]
 				x /= len(ops)
-				if hist[i].Kind == "reg" || hist[i].Kind == "parent" {
+				if hist[i].Kind == "reg" || hist[i].Kind == "parent" || hist[i].Kind == "reg-shared" {
 					regs++
 				} else {
 					resolves++
